@@ -425,6 +425,9 @@ def extra_tasks(pid):
         ts += [('contracts.bulk', 'cull_task', ('C14', 'least-recently-stored'))]
     if pid == 'C07':
         ts += [('contracts.traces', 'exclusive_create', ())]
+        # opening is idempotent across a crash: every open re-establishes every Settings row (the metadata
+        # counters with INSERT OR IGNORE), whatever an interrupted earlier open left behind
+        ts += [('contracts.c18', 'settings_merge', ())]
     if pid in ('C05', 'C06', 'C07'):
         ts += [('contracts.traces', 'transact_block', (pid,))]
     if pid == 'C08':
@@ -440,6 +443,9 @@ def extra_tasks(pid):
 def post_process(pid, results):
     out = []
     for r in results:
+        if pid == 'C07' and r['name'].startswith('C18.init.'):
+            r = Result('C07.open.' + r['name'][9:], r['kind'], r['verdict'],
+                       **{k: v for k, v in r.items() if k not in ('name', 'kind', 'verdict')})
         if pid == 'C08' and r['name'].startswith('C01.'):
             if not r['name'].startswith('C01.store.size'):
                 continue
